@@ -185,6 +185,25 @@ impl std::fmt::Display for PlainDisplay {
     }
 }
 
+impl std::fmt::Debug for PlainDisplay {
+    fn fmt(&self, f: &mut std::fmt::Formatter<'_>) -> std::fmt::Result {
+        f.write_str("dbg")?;
+        for p in &self.0 {
+            f.write_str(p)?;
+        }
+        Ok(())
+    }
+}
+
+/// formats its subject with `{:?}` when it is dropped - used to format while the thread is unwinding
+struct FormatOnDrop<'a, T: std::fmt::Debug>(&'a T, &'a std::sync::Mutex<Vec<String>>);
+impl<T: std::fmt::Debug> Drop for FormatOnDrop<'_, T> {
+    fn drop(&mut self) {
+        let text = format!("{:?}", self.0);
+        self.1.lock().unwrap_or_else(|p| p.into_inner()).push(format!("while unwinding: {text}"));
+    }
+}
+
 #[derive(Debug)]
 struct PlainErr;
 impl embedded_hal::digital::Error for PlainErr {
@@ -557,7 +576,7 @@ fn okerr<T: std::fmt::Debug, E>(r: &Result<T, E>) -> String {
 }
 
 pub const GROUPS: &[&str] = &[
-    "std::io::Write", "std::io::Read", "std::io::BufRead", "std::io::Seek", "core::hash::Hasher", "core::fmt::Display",
+    "std::io::Write", "std::io::Read", "std::io::BufRead", "std::io::Seek", "core::hash::Hasher", "core::fmt::Display+Debug",
     "embedded_hal::delay::DelayNs", "embedded_hal::digital::(Stateful)OutputPin", "embedded_hal::pwm::SetDutyCycle",
     "embedded_hal::i2c::I2c", "embedded_hal::spi::SpiDevice+SpiBus", "tokio::io::AsyncRead/AsyncWrite", "futures_io::AsyncRead/AsyncWrite",
 ];
@@ -720,15 +739,25 @@ fn drive(seed: u64, group: u8, faults: bool) -> (String, Vec<String>, Vec<String
             what = "Display via format!".into();
             let parts: Vec<String> = (0..rng.range(0, 3)).map(|i| format!("part{i}-{}", rng.below(100))).collect();
             let p2 = parts.clone();
-            let du = Unimock::new(DisplayMock::fmt.each_call(matching!(_)).answers_arc(Arc::new(move |_u: &Unimock, f: &mut std::fmt::Formatter<'_>| {
-                for p in &p2 {
-                    f.write_str(p)?;
-                }
-                if p2.len() == 3 {
-                    return Err(std::fmt::Error);
-                }
-                Ok(())
-            })))
+            let p3 = parts.clone();
+            let du = Unimock::new((
+                DisplayMock::fmt.each_call(matching!(_)).answers_arc(Arc::new(move |_u: &Unimock, f: &mut std::fmt::Formatter<'_>| {
+                    for p in &p2 {
+                        f.write_str(p)?;
+                    }
+                    if p2.len() == 3 {
+                        return Err(std::fmt::Error);
+                    }
+                    Ok(())
+                })),
+                unimock::mock::core::fmt::DebugMock::fmt.each_call(matching!(_)).answers_arc(Arc::new(move |_u: &Unimock, f: &mut std::fmt::Formatter<'_>| {
+                    f.write_str("dbg")?;
+                    for p in &p3 {
+                        f.write_str(p)?;
+                    }
+                    Ok(())
+                })),
+            ))
             .no_verify_in_drop();
             let pd = PlainDisplay(parts);
             use std::fmt::Write as _;
@@ -738,6 +767,20 @@ fn drive(seed: u64, group: u8, faults: bool) -> (String, Vec<String>, Vec<String
             let rb = write!(sb, "[{}|{:>12}]", pd, pd);
             a.push(format!("{:?} {sa}", ra.is_ok()));
             b.push(format!("{:?} {sb}", rb.is_ok()));
+            // Debug, also requested while the thread is unwinding (a destructor that logs its subject)
+            a.push(format!("{du:?}"));
+            b.push(format!("{pd:?}"));
+            let (la, lb) = (std::sync::Mutex::new(vec![]), std::sync::Mutex::new(vec![]));
+            let _ = std::panic::catch_unwind(std::panic::AssertUnwindSafe(|| {
+                let _g = FormatOnDrop(&du, &la);
+                std::panic::resume_unwind(Box::new(crate::ctx::UserFault::Body));
+            }));
+            let _ = std::panic::catch_unwind(std::panic::AssertUnwindSafe(|| {
+                let _g = FormatOnDrop(&pd, &lb);
+                std::panic::resume_unwind(Box::new(crate::ctx::UserFault::Body));
+            }));
+            a.extend(la.into_inner().unwrap_or_default());
+            b.extend(lb.into_inner().unwrap_or_default());
         }
         6 => {
             use embedded_hal::delay::DelayNs;
